@@ -53,8 +53,24 @@ def expected_after_roundtrip(t, drop_ext=False, drop_per=False):
         for o, k in zip(t["order"], t["knots"]): e["ext"] += [k[o], k[len(k) - o - 1]]
     if t["per"] is None or drop_per:
         e["per"] = [0] * t["ndim"]
-    e["aux"] = [(k, v.ljust(8)) for k, v in t["aux"]]
+    e["aux"] = [(k, fits_padded(v)) for k, v in t["aux"]]
     return e
+
+
+def fits_padded(v):
+    """A FITS string value occupies at least 8 characters between its quotes; an apostrophe occupies two (it is
+    stored doubled), so the blanks added are 8 - (length + number of apostrophes).  For values without apostrophes
+    this is v.ljust(8)."""
+    return v + " " * max(0, 8 - len(v) - v.count("'"))
+
+
+def aux_only_blanks_gained(read, written):
+    """C06's own wording for the auxiliary keys: same keys in the same order, each value is the value written followed
+    by nothing but blanks (at most up to 8 characters in all).  Independent of how many blanks FITS adds."""
+    if [k for k, _ in read] != [k for k, _ in written]: return False
+    for (_, r), (_, w) in zip(read, written):
+        if not r.startswith(w) or r[len(w):].strip(" ") != "" or (len(r) > len(w) and len(r) > 8): return False
+    return True
 
 
 def is_nan32(u): return (u & 0x7f800000) == 0x7f800000 and (u & 0x7fffff) != 0
